@@ -79,6 +79,7 @@ def main(argv):
     n_ob = n_ok = 0
     viol = []
     struct_viol = []
+    newcallee = {}
     undec = []
     knownhits = []
     samples = []
@@ -119,6 +120,9 @@ def main(argv):
             elif o['status'] == 'FAILURE':
                 if not relevant(o, prop):
                     continue
+                if 'undefined function should be unreachable' in o['desc']:
+                    newcallee.setdefault(r['unit'], []).append(o)
+                    continue
                 hit = None
                 for k in known:
                     if k.get('property') == prop and k.get('unit') == r['unit'] and k.get('obligation') == o['id']:
@@ -133,6 +137,16 @@ def main(argv):
         for r in results:
             for o in r['obligations'][:3]:
                 samples.append({'unit': r['unit'], 'obligation': o['id'], 'where': '%s:%s' % (o['file'], o['line']), 'text': o['desc'], 'status': o['status']})
+    # a call to a function without a contract in the unit (e.g. a new helper): not a refutation of the property.  The native driver
+    # decides: a concrete failing input -> violation; otherwise the unit is undecided.
+    for un, obs in newcallee.items():
+        if any(r0['unit'] == un for r0, _ in viol):
+            continue
+        spath, sfound = RP.structural(units[un], 'call to a function that has no contract in this unit: ' + '; '.join(vf.fmt_ob(o) for o in obs)[:600], prop, seed)
+        if sfound:
+            struct_viol.append((un, spath))
+        else:
+            undec.append('%s: calls a function without contract (%s); native evaluation found no failing input' % (un, obs[0]['id']))
     rc = 0
     out_lines = []
     extra_info = {}
